@@ -115,8 +115,8 @@ class CategoricalBox:
 
     @levels.setter
     def levels(self, value):
-        if value is not None and set(value) != set(self.data):  # pragma: no cover
-            raise ValueError("The levels beign assigned and the levels in the data differ")
+        # That the levels match the levels observed in the data is checked when the training data
+        # is encoded (see Call.eval_categorical_box). New data may legitimately lack some level.
         self._levels = value
 
 
